@@ -728,7 +728,8 @@ def _judge_tx(bk, k, f, main, ex, where, net, wk, pub, bcount, dust, fmin, fmax,
     ik = ex.get('inkeys', '-')
     if ik != '-' and len(ik.split(',')) == len(ops):
         for op, kx in zip(ops, ik.split(',')):
-            if op in bk.known and int(kx) != -2 and int(kx) != bk.known[op]['key'] and not (nk == 1 and int(kx) == 0):
+            if op in bk.known and bk.known[op]['key'] >= 0 and int(kx) != -2 and int(kx) != bk.known[op]['key'] \
+                    and not (nk == 1 and int(kx) == 0):
                 bad.append(('input_key', where + 'input %s:%d is an output of key %d, the transaction unlocks it with key %s' % (
                     op[0][:12], op[1], bk.known[op]['key'], kx)))
                 break
